@@ -79,6 +79,11 @@ func (b *Buffer[T]) Sample(i int) T {
 func (dst *Buffer[D]) Append(src *Buffer[D]) {
 	mustSame(dst.Channels(), src.Channels(), diffChannels)
 	offset := dst.Len()
+	if src == dst {
+		// appending Buffer to itself: keep the source window as it was
+		// before the destination grows.
+		src = &Buffer[D]{channels: dst.channels, data: dst.data, bitDepth: dst.bitDepth}
+	}
 	if dst.Cap() < dst.Len()+src.Len() {
 		dst.data = append(dst.data, make([]D, src.Len())...)
 	} else {
